@@ -423,6 +423,8 @@ class DecoderLayout:
             r = self.locals.get(n.id)
             if isinstance(r, dict) and r["kind"] == "u16":
                 return Lin(0, (r["sym"],))
+            if isinstance(r, dict) and r["kind"] == "charlen":
+                return Lin(0, (r["sym"],))
             raise AnalysisError("decoder of %s: index %s is not a length read earlier" % (self.cls.name, n.id))
         if isinstance(n, ast.BinOp) and isinstance(n.op, ast.Add):
             return self.lin(n.left).add(self.lin(n.right))
@@ -601,6 +603,11 @@ class DecoderLayout:
                 ok, cv = self.fold(v)
                 if ok or isinstance(v, (ast.List, ast.Constant)):
                     self.locals[t.id] = {"kind": "const", "value": cv, "off": None}
+                    return
+                if isinstance(v, ast.Call) and isinstance(v.func, ast.Name) and v.func.id == "len" and len(v.args) == 1:
+                    # a length that is not read from the wire: the number of characters/items of something already decoded
+                    self.nsym += 1
+                    self.locals[t.id] = self.rec("charlen", ("local", t.id), None, of=U(v.args[0]), sym="C%d" % self.nsym, node=v)
                     return
                 raise AnalysisError("decoder of %s: assignment %s not understood" % (self.cls.name, U(s)))
             if is_self_attr(t):
